@@ -24,6 +24,11 @@ def collections():
     C["ar_where"] = X.where(X.arr([N(1), N(2), N(3), N(4), N(5)]), X.dotfn(X.cmpop("<:", X.dot(X.var("."), "@"), X.set_([N(0), N(4)]))))
     C["str_hole2"] = X.where(X.string("abcde"), X.dotfn(X.cmpop("<:", X.dot(X.var("."), "@"), X.set_([N(0), N(4)]))))
     C["ar_one_off"] = X.arr([N(9)], 3)
+    # relations over {@, x} whose stored column order is [x, @]: join-built, or a value attribute sorting before @
+    C["rj_x_at"] = X.join("<&>", X.rel(["x"], [[N(5)]]), X.rel(["@"], [[N(2)], [N(3)]]))
+    C["rj_x_at2"] = X.where(X.join("<&>", X.rel(["x"], [[N(5)], [N(6)]]), X.rel(["@"], [[N(1)], [N(2)]])), X.dotfn(X.cmpop("!=", X.dot(X.var("."), "x"), X.dot(X.var("."), "@"))))
+    C["r_dollar"] = X.rel(["$", "@"], [[N(7), N(0)], [N(8), N(1)]])
+    C["r_dollar_dup"] = X.rel(["$", "@"], [[N(7), N(1)], [N(8), N(1)], [N(9), N(2)]])
     C["str_gap"] = X.binop("with", X.string("ab"), X.tup([("@", N(4)), ("@char", N(101))]))
     C["d_tupkey"] = X.dict_([(X.tup([("a", N(1))]), N(1)), (X.arr([N(1)]), N(2))])
     C["u_keyed"] = X.binop("|", X.arr([N(1), N(2)]), X.dict_([(X.string("k"), N(5))]))
